@@ -287,6 +287,23 @@ func (e *Env) doWFaults(op *Op) {
 			return m.WriteTo(w, ch)
 		}
 	}
+	// the same Merger object used twice: a complete first WriteTo, then a second one into a writer that fails at
+	// byte k (k > L: does not fail) - the second call must report what happened to ITS destination
+	mkRetry := func(buf int) func(w io.Writer, ch chan struct{}) (int64, error) {
+		return func(w io.Writer, ch chan struct{}) (int64, error) {
+			var m segment.Merger
+			if op.Mode == 0 {
+				m = impl.Merge(segs, drops, buf)
+			} else {
+				m = impl.MergeM(segs, drops, buf, op.Mode)
+			}
+			first := &faultWriter{limit: -1, closeAt: -1}
+			if _, err := m.WriteTo(first, make(chan struct{})); err != nil {
+				return 0, fmt.Errorf("first WriteTo failed: %v", err)
+			}
+			return m.WriteTo(w, ch)
+		}
+	}
 	dropsEv := []M{}
 	if kind == "merge" {
 		for i, h := range op.In {
@@ -320,7 +337,7 @@ func (e *Env) doWFaults(op *Op) {
 		_ = rn
 		modes := []string{"fail"}
 		if kind == "merge" {
-			modes = append(modes, "close")
+			modes = append(modes, "close", "retry")
 		}
 		for _, mode := range modes {
 			outcomes := [][]interface{}{}
@@ -328,9 +345,16 @@ func (e *Env) doWFaults(op *Op) {
 			if op.Stop > 1 {
 				step = op.Stop
 			}
-			for k := 0; k <= L+1; k += step {
+			run := run
+			if mode == "retry" {
+				run = mkRetry(buf)
+				if s := L / 12; s > step {
+					step = s // a dozen offsets are enough for the second call
+				}
+			}
+			for k := 0; k <= L+1+step; k += step {
 				w := &faultWriter{limit: -1, closeAt: -1, ch: make(chan struct{})}
-				if mode == "fail" {
+				if mode == "fail" || mode == "retry" {
 					w.limit = k
 				} else {
 					w.closeAt = k
